@@ -24,7 +24,7 @@ CONVERSIONS = [
     ('T=degC', dict(temperature='°C')),
     ('json', dict(json=True)),
 ]
-QUICK = ('p=Pa', 'p=relative%', 'l=mass:mg', 'l=volume_liquid:cm3', 'p=kPa,l=mass:g', 'T=degC', 'json')
+QUICK = ('p=Pa', 'p=relative%', 'l=mass:mg', 'l=volume_liquid:cm3', 'l=volume_gas:cm3', 'p=kPa,l=mass:g', 'T=degC', 'json')
 
 
 def _load(name):
